@@ -1,5 +1,6 @@
 // Correspondence harness for C15: SPDE operators, projections and solvers are mutually consistent.
 #include "krig_common.hpp"
+#include "Enum/EPowerPT.hpp"
 #include <set>
 #include "Mesh/MeshETurbo.hpp"
 #include "Mesh/MeshEStandard.hpp"
@@ -121,10 +122,28 @@ int main()
       const MatrixSparse* M = Qc.getQ();
       if (M != nullptr && M->getNRows() == napex)
       {
+        // explicit form: Q = Lambda p(S) Lambda recomputed in exact arithmetic from the exported S, Lambda and coefficients;
+        // matrix-free form: Lambda Horner(p, S)(Lambda v)
+        std::string sS, sLam, sB;
+        if (napex <= 30)
+        {
+          const MatrixSparse* Sm = S.getS();
+          VectorDouble lam = S.getLambdas();
+          (void)Q.evalDirect(VectorDouble(napex, 0.));          // the polynomial of the precision is prepared lazily
+          VectorDouble blin = Q.getPolyCoeffs(EPowerPT::ONE);
+          if (Sm != nullptr && (int)lam.size() == napex && !blin.empty())
+          {
+            std::vector<double> sv((size_t)napex * napex), qv((size_t)napex * napex);
+            for (int i = 0; i < napex; i++) for (int j = 0; j < napex; j++) { sv[(size_t)i * napex + j] = Sm->getValue(i, j); qv[(size_t)i * napex + j] = M->getValue(i, j); }
+            sS = vecD(sv); sLam = vecD(std::vector<double>(lam.begin(), lam.end())); sB = vecD(std::vector<double>(blin.begin(), blin.end()));
+            printf("u qform %d %s %s %s %s =>\n", napex, sS.c_str(), sLam.c_str(), sB.c_str(), vecD(qv).c_str()); st.hit("precision_explicit_form");
+          }
+        }
         for (int rep = 0; rep < 3; rep++)
         {
           VectorDouble v(napex); for (auto& x : v) x = rng.dyadic(-4, 4, 4);
           VectorDouble a = Q.evalDirect(v), b = Qc.evalDirect(v);
+          if (!sS.empty() && rep == 0) { printf("u qfree %d %s %s %s %s %s =>\n", napex, sS.c_str(), sLam.c_str(), sB.c_str(), vecD(std::vector<double>(v.begin(), v.end())).c_str(), vecD(std::vector<double>(a.begin(), a.end())).c_str()); st.hit("precision_matrix_free_form"); }
           VectorDouble c = M->prodMatVec(v);
           double sc = 0; for (double x : c) sc = std::max(sc, std::fabs(x));
           pairOut("precision_matrixfree_vs_sparse", std::vector<double>(a.begin(), a.end()), std::vector<double>(c.begin(), c.end()), std::max(1., sc), st);
